@@ -60,7 +60,15 @@ def gen_ops(rng, kind, init, n):
             ops.append(["udefine", "length", fr("n"), "vf" + blank + "w"])
         for o in ops:
             if o[0] == "uscale" and o[4] == "ok": names.append(o[2]); syms.append(o[3]); mynames.append(o[2]); mysyms.append(o[3])
+        # a unit that has no name is pickled, then given a symbol only, then the old pickle is read back: the symbol stays declared and reported
+        anon = [i for i in range(nobj) if str(i) not in init["nm"] and str(i) not in init["sy"]]
+        for a_ in rng.sample(anon, min(3, len(anon))):
+            sy_ = fr("s")
+            ops += [["snap", a_], ["ualias", a_, None, sy_], ["uresolve", sy_], ["load", a_], ["uresolve", sy_], ["ualias", a_, fr("n"), None], ["load", a_]]
     for _ in range(n):
+        if rng.random() < 0.06:
+            # documents of registered objects taken at one point of the history and read back at a later one
+            ops.append([rng.choice(["snap", "load", "load"]), rng.randrange(nobj)]); continue
         if kind == "unit":
             r = rng.random()
             if r < 0.30:
@@ -136,6 +144,9 @@ def model_op(kind, op, rec, known_objs):
     if k == "uresolve":
         if "err" in rec: return "skip"
         return ("New", None, None, None, "false") if rec["created"] else ("Name", rec["obj"], None, None, "false")
+    if k in ("snap", "load"):
+        if "err" in rec: return None
+        return ("Name", rec["obj"], None, None, "false")
     if k in ("uanon", "danon", "djson"):
         if "err" in rec: return None
         return ("New", None, None, None, "false") if rec["created"] else ("Name", rec["obj"], None, None, "false")
@@ -178,6 +189,9 @@ def main():
                     c.violation(f"twoclaim:{kind}", f"after {op} the name/symbol {rec['dups']} is claimed by two different objects", {"kind": kind, "ops": ops[:i + 1]})
                 if rec.get("unreported"):
                     c.violation(f"bound-not-reported:{kind}", f"after {op} {rec['unreported']} is bound to an object that does not report it", {"kind": kind, "ops": ops[:i + 1]})
+                if op[0] in ("snap", "load") and (changed or "err" in rec):
+                    c.violation(f"document-mutates:{kind}", f"{op} (pickling a registered object / reading the pickle back) changed the registries or raised: {json.dumps(d)[:200]} {rec.get('err')}",
+                                {"kind": kind, "ops": ops[:i + 1]})
                 if op[0] == "uresolve":
                     # a lookup never changes names or symbols, and after a successful declaration of this symbol it returns that object
                     if changed:
